@@ -222,7 +222,7 @@ def generate(ctx):
     for q in range(ctx.n(4, 20)):
         case = {'L': rng.choice([1024, 1200, 2048, 1500]), 'dr': rng.choice([0.05, 0.1]), 'w': rng.uniform(0.5, 2.0), 'amp': rng.choice([0.5, -0.3, 2.0]), 'badk': q % 2 == 1}
         ctx.case('bigsys', case, True, tags=['bigsys', 'badk' if case['badk'] else 'goodk']); suite_bigsys(ctx, case)
-    for _ in range(ctx.n(120, 1500)):
+    for _ in range(ctx.n(120, 6000)):
         L, dr, kd = gen_domain(rng, 24)
         rows = [[k, round(rng.choice([rng.uniform(0, 30), rng.uniform(-0.5, 0.5), rng.uniform(-30, 30), 0.0, 10 ** rng.uniform(-12, -6)]), 12)] for k in kd]
         grids = [kd]
@@ -234,7 +234,7 @@ def generate(ctx):
         if rng.random() < 0.3: rng.shuffle(grids)
         case = {'kind': rng.choice(['file', 'file', 'array-k', 'array']), 'rows': rows, 'grids': grids}
         ctx.case('history', case, True, tags=['history:' + case['kind'], 'evals:%d' % len(grids)]); suite_history(ctx, case)
-    for _ in range(ctx.n(600, 8000)):
+    for _ in range(ctx.n(600, 30000)):
         L, dr, kd = gen_domain(rng, maxL)
         rel = rng.choice(['equal', 'equal', 'shifted', 'rescaled', 'truncated', 'extended', 'perturbed', 'perturbed', 'nan', 'prepend0'])
         kind = rng.choice(['array', 'array-nok', 'file2', 'file1'])
